@@ -169,6 +169,11 @@ def run(ctx):
         jobs.append((rng.getrandbits(32), t, module_text([('A', t)]), [g.value(t) for _ in range(3)]))
     parts = core.parallel_map(work_set, [jobs[k::n] for k in range(n)])
     core.merge(ctx, parts)
+    # explicitly tagged types (outside the Lean universe): variants built from the shape of an independent DER encoding, certified by
+    # the independent reader; one named type under one component name in several contexts
+    from .. import tagged, ctxfam
+    tagged.run_c04(ctx, rng, ctx.n(120, 1500), impl, Gen, Opts, module_text)
+    ctxfam.run(ctx, 'C04', rng, ctx.n(150, 2000), impl, ['ber'])
     # witness of the known finding
     w = 'M DEFINITIONS AUTOMATIC TAGS ::= BEGIN A ::= SEQUENCE { a BOOLEAN, ..., b INTEGER OPTIONAL } END'
     st, spec = impl.compile_text(w, 'ber')
